@@ -363,6 +363,28 @@ add("permute_retry_once", (GU, "        while m.edges == m_permu.edges:", "     
 add("permute_nodes_unsorted", (GU, "nodes_sorted_by_label = sorted(list(m.nodes(data=True)))", "nodes_sorted_by_label = list(m.nodes(data=True))"), fires={"R-LABELORDER"})
 add("permute_relabel_in_place", (GU, "m_relabeled = nx.relabel_nodes(m, dict(zip(permuted_labels, labels)), copy=True)", "m_relabeled = nx.relabel_nodes(m, dict(zip(permuted_labels, labels)), copy=False)"), fires={"R-COPY", "R-EFFECT"})
 
+# ---------------------------------------------------------------- writer
+add("writer_wrap_threshold_73", (WR, "        if len(line) <= 72:", "        if len(line) <= 73:"), fires={"R-LEN"})
+add("writer_direct_append", (WR, '    _add_v30_line(lines, "END CTAB")', '    lines.append("M  V30 END CTAB " + str(graph.graph))'), fires={"R-LEN"})
+add("writer_chunk_72_rest_71", (WR, "        left, line = line[:71], line[71:]", "        left, line = line[:71], line[72:]"), fires={"R-WRAP"})
+add("writer_coordinates_4_decimals", (WR, "{x:.6f} {y:.6f} {z:.6f}", "{x:.4f} {y:.4f} {z:.4f}"), fires={"R-FIELDS"})
+add("writer_bond_type_after_endpoints", (WR, 'f"{index} {bond_type} {node_index1 + 1} {node_index2 + 1}"', 'f"{index} {node_index1 + 1} {node_index2 + 1} {bond_type}"'), fires={"R-FIELDS"})
+add("writer_charge_guard_excludes_15", (WR, "-15 <= chg <= 15", "-15 < chg < 15"), fires={"R-FIELDS"})
+add("writer_rad_keyword_typo", (WR, 'f" RAD={rad}"', 'f" RADICAL={rad}"'), fires={"R-FIELDS"})
+add("reader_splice_keeps_prefix_blank", (V3, "next_line[7:]", "next_line[6:]"), fires={"R-WRAP"})
+
+# ---------------------------------------------------------------- parser wiring
+add("parser_lexer_listener_not_registered", (PAR, "    lexer.addErrorListener(LexerErrorListener())\n", ""), fires={"R-LISTENERS"})
+add("parser_default_listeners_kept", (PAR, "    parser.removeErrorListeners()\n", ""), fires={"R-LISTENERS"})
+add("parser_start_rule_without_eof", (PAR, "    tree = parser.tucan()", "    tree = parser.tuples()"), fires={"R-LISTENERS"})
+add("parser_handler_misspelt", (PAR, "    def enterTuple(self, ctx", "    def enterTupel(self, ctx"), fires={"R-HANDLERS"})
+add("parser_atoms_share_dict", (PAR, "[atom_attrs.copy() for _ in range(count)]", "[atom_attrs for _ in range(count)]"), fires={"R-ALIAS"})
+add("parser_listener_swallows_errors", (PAR, "        raise TucanParserException(error_str)", "        print(error_str)"), fires={"R-LISTENERS"})
+add("parser_attribute_index_unvalidated", (PAR, "            self._validate_atom_index(index)\n\n            atom_attrs = atoms_dict[index]", "            atom_attrs = atoms_dict[index]"), fires={"R-ORDERING"})
+add("parser_sort_reverse", (PAR, "sorted(self._atoms, key=lambda a: a[ATOMIC_NUMBER])", "sorted(self._atoms, key=lambda a: a[ATOMIC_NUMBER], reverse=True)"), fires={"R-CODEC"})
+add("partitioner_mutates_argument", (CAN, "    m_partitioned = m.copy()", "    m_partitioned = m"), fires={"R-EFFECT"})
+add("v3000_star_bonds_share_dict", (V3, "            bonds[t] = bond_attrs.copy()", "            bonds[t] = bond_attrs"), fires={"R-ALIAS"})
+
 # ---------------------------------------------------------------- determinism
 add("timestamp_in_serializer", [(SER, '''    serialization = _write_sum_formula(m_sorted)''', '''    import time
     serialization = _write_sum_formula(m_sorted) if time.time() > 0 else ""'''), ], fires={"R-NONDET"})
